@@ -395,23 +395,78 @@ Proof.
   (* the guard and the definition *)
   cbn [exec exec_instr ref_idx spec_step] in H.
   destruct (Nat.ltb_spec L (length a1)) as [_|]; [|lia].
-  rewrite Hr1 in H. cbn [eobs_of_val exec_acts exec_act exec_set ref_idx spec_step] in H.
+  rewrite Hr1 in H. cbn [eobs_of_val exec_acts exec_act] in H. unfold exec_set in H. cbn [ref_idx spec_step] in H.
   destruct (Nat.ltb_spec L (length a1)) as [_|]; [|lia].
-  unfold spec_define in H. Show. rewrite Hd1, Hn1 in H.
+  unfold spec_define in H. rewrite Hd1, Hn1 in H.
   set (a2 := set_binds a1 L (own_binds a1 L ++ [(map_key (norm n), v)])) in *.
   assert (Hr2 : spec_resolve_top a2 L (norm n) = Some (Some v))
     by (unfold spec_resolve_top in *; exact (define_resolves _ _ a1 L (norm n) v L Ht1 Hd1 Hn1 Hr1)).
   assert (Hh2 : hid a2 L (length a) c1) by (apply hid_set_binds; exact Hh1).
   (* the remaining calls keep the ancestors of L as they are *)
-  assert (Hrest : exists ks, hid a' L (length a) c1 \/ True -> frame L (length a) ks a2 a').
+  assert (Hrest : exists ks, frame L (length a) ks a2 a').
   { destruct (exec_acts (spec_step cfg) L (length a) a2 body) as [a3 o3] eqn:E3.
     destruct (exec_acts_frame cfg L (length a) body a2 c1 a3 o3 Hh2 Hsb E3) as [Hh3 Hf3].
     destruct o3; try (apply ok_pair in H; destruct H as [_ H]; discriminate H).
     destruct (exec_frame cfg L (length a) post a3 c1 a' AOk Hh3 Hsp H) as (c4 & _ & Hf4 & _).
-    eexists. intros _. exact (frame_trans _ _ _ _ _ _ _ Hf3 Hf4). }
-  destruct Hrest as (ks & Hf). destruct (Hf (or_intror I)) as (He2 & Hq2 & _).
+    eexists. exact (frame_trans _ _ _ _ _ _ _ Hf3 Hf4). }
+  destruct Hrest as (ks & He2 & Hq2 & _).
   pose proof Hh2 as (Hlen2 & _ & Ht2 & _).
   unfold spec_resolve_top in *.
   apply (resolve_stable _ a2 a' L (norm n) v Ht2 He2); [lia| |exact Hr2].
   intros p Ha. pose proof (ancestor_lt a2 L p Ht2 Ha). apply Hq2; lia.
+Qed.
+
+(* misses are not sticky for px.AddTypes: after ANY history, if a lookup of n through a loader (not a type-set
+   loader) fails and px.AddTypes through that loader then ends normally, and its calls contain
+   `le := l.LoadEntry(c, n); if le == nil || le.Value() == nil { l.SetEntry(n, v); ... }` with no earlier call
+   binding n (for a type set: n = the qualified name of a member, v = the member), then n resolves to v. *)
+Theorem addtypes_miss_not_sticky cfg xs l ts pre n v body post :
+  cfg_wf cfg = true -> forallb (xop_wf cfg) xs = true -> xop_wf cfg (XAddTypes l ts) = true ->
+  op_wf (OLoad l n) = true -> tn_auth (norm n) = cfg_auth cfg ->
+  compile (cfg_auth cfg) ts = pre ++ IUnless HL n (ASet HL n v :: body) :: post ->
+  ~ In (map_key (norm n)) (flat_map instr_keys pre) ->
+  (exists nd, nth_error (fst (xrun cfg xs)) l = Some nd /\ is_tset (nkind nd) = false) ->
+  xresult_after cfg xs (XOp (OLoad l n)) = XR (RFound None) ->
+  xresult_after cfg (xs ++ [XOp (OLoad l n)]) (XAddTypes l ts) = XA AOk ->
+  xresult_after cfg (xs ++ [XOp (OLoad l n); XAddTypes l ts]) (XOp (OLoad l n)) = XR (RFound (Some v)).
+Proof.
+  intros Hc Hw Hwa Ho Hau Hcomp Hk (nd & En & Kn) H1 H2.
+  assert (Hwo : xop_wf cfg (XOp (OLoad l n)) = true) by exact Ho.
+  assert (Hw1 : forallb (xop_wf cfg) (xs ++ [XOp (OLoad l n)]) = true)
+    by (rewrite forallb_app, Hw; cbn [forallb]; rewrite Hwo; reflexivity).
+  assert (Hw2 : forallb (xop_wf cfg) ((xs ++ [XOp (OLoad l n)]) ++ [XAddTypes l ts]) = true)
+    by (rewrite forallb_app, Hw1; cbn [forallb]; rewrite Hwa; reflexivity).
+  assert (Hl : l < length (fst (xrun cfg xs))) by (apply nth_error_Some; congruence).
+  (* the failed lookup *)
+  destruct (xresult_after_sim cfg xs _ Hc Hw Hwo) as [Hi0 Hs1]. rewrite H1 in Hs1.
+  cbn [spec_xstep spec_step xproject project] in Hs1. rewrite abs_length in Hs1.
+  destruct (Nat.ltb_spec l (length (fst (xrun cfg xs)))) as [_|]; [|lia].
+  rewrite Hau, str_eqb_refl in Hs1. cbn [negb] in Hs1.
+  destruct (spec_resolve_top (abs (fst (xrun cfg xs))) l (norm n)) as [x|] eqn:Hr; [|discriminate].
+  injection Hs1 as Ha1 Hx. subst x.
+  (* px.AddTypes *)
+  destruct (xresult_after_sim cfg (xs ++ [XOp (OLoad l n)]) _ Hc Hw1 Hwa) as [Hi1 Hs2]. rewrite H2 in Hs2.
+  rewrite <- Ha1 in Hs2. cbn [spec_xstep xproject] in Hs2. rewrite abs_length in Hs2.
+  destruct (Nat.ltb_spec l (length (fst (xrun cfg xs)))) as [_|]; [|lia].
+  destruct (exec (spec_step cfg) spec_add (@length anode) l (length (fst (xrun cfg xs))) (abs (fst (xrun cfg xs)))
+              (compile (cfg_auth cfg) ts)) as [a2 o2] eqn:E2.
+  injection Hs2 as Ha2 Ho2. subst o2.
+  cbn [xop_wf] in Hwa. apply andb_prop in Hwa. destruct Hwa as [_ Hsc].
+  rewrite Hcomp in E2, Hsc. rewrite <- (abs_length (fst (xrun cfg xs))) in E2.
+  assert (Hr2 : spec_resolve_top a2 l (norm n) = Some (Some v)).
+  { eapply spec_addtypes_miss; eauto.
+    - apply tree_ok_abs. exact Hi0.
+    - rewrite abs_length. exact Hl.
+    - rewrite nth_abs, En. cbn [option_map]. eexists. split; [reflexivity|exact Kn]. }
+  pose proof (ext_length _ _ (exec_ext cfg _ _ _ _ _ _ E2)) as Hlen. rewrite abs_length in Hlen.
+  (* the second lookup *)
+  rewrite <- app_assoc in Hw2. cbn [app] in Hw2.
+  destruct (xresult_after_sim cfg (xs ++ [XOp (OLoad l n); XAddTypes l ts]) _ Hc Hw2 Hwo) as [_ Hs3].
+  change (xs ++ [XOp (OLoad l n); XAddTypes l ts]) with (xs ++ [XOp (OLoad l n)] ++ [XAddTypes l ts]) in Hs3 at 1.
+  rewrite app_assoc, <- Ha2 in Hs3.
+  cbn [spec_xstep spec_step] in Hs3.
+  destruct (Nat.ltb_spec l (length a2)) as [_|]; [|lia].
+  rewrite Hau, str_eqb_refl, Hr2 in Hs3. cbn [negb] in Hs3. injection Hs3 as _ Hr3.
+  destruct (xresult_after cfg (xs ++ [XOp (OLoad l n); XAddTypes l ts]) (XOp (OLoad l n))) as [r3|a3]; [|discriminate].
+  cbn [xproject] in Hr3. injection Hr3 as Hr3. f_equal. apply project_inv; [symmetry; exact Hr3|discriminate].
 Qed.
